@@ -4,7 +4,7 @@ CONSTANTS
   Liars = {p3, p4}
   MaxOut = 4
   I = 2
-  MaxIdx = 2
+  MaxIdx = 1
   MaxMsg = 2
 INVARIANTS TypeOK WrongNeverFinal
 PROPERTIES AppendOnly Quorum NotBlocked ContradictorsBanned
